@@ -54,8 +54,13 @@ def content(r, small=False):
     u = r.random()
     if u < 0.75:
         return "corpus:" + r.choice(SMALL_POOL if small else CORPUS_POOL)
-    kind = r.choice(["rects", "ellipses", "paths", "outside", "gradient", "shared"])
+    kind = r.choice(["rects", "ellipses", "paths", "outside", "gradient", "shared", "shared", "shared"])
     spec = {"kind": kind, "n": r.randint(1, 4), "seed": r.randint(0, 999)}
+    if kind == "shared":
+        # the same shape several times with different fill AND opacity: reuse through <use> with two paint attributes
+        spec["n"] = r.randint(2, 4)
+        if r.random() < 0.6:
+            spec["opacity"] = True
     if r.random() < 0.3:
         spec["viewbox"] = r.choice([[0, 0, 128, 128], [0, 0, 200, 100], [0, 0, 50, 120], [10, 10, 100, 100]])
     if kind in ("rects", "paths") and r.random() < 0.3:
